@@ -4,6 +4,7 @@ import Mathlib.Tactic.Linarith
 import Mathlib.Tactic.FieldSimp
 import Mathlib.Tactic.NormNum
 import Mathlib.Data.Rat.Defs
+import Mathlib.Algebra.Field.Rat
 /-!
 Number-text lemmas for C15: printing a count (`Num.show`) and reading it back (`convertType`, `countStr`,
 `isNumber`).  Central theorem: `Formula.numOK_of_wf : NumWF v → NumOK v`.
@@ -344,5 +345,181 @@ theorem countStr_floatTxt (neg : Bool) (D1 D2 rest : Str) (hd : AllDig D1) (hd2 
   have := countTail_float (c :: t) D2 rest hd hd2 hr
   rw [List.append_assoc, List.append_assoc, List.cons_append, countStr_signTxt _ _ _ hc, ← List.cons_append,
     ← List.append_assoc (c :: t), this, List.append_assoc]
+
+/-! ## arithmetic of the printed value -/
+
+theorem signVal_natAbs (i : Int) : signVal (decide (i < 0)) * (i.natAbs : Int) = i := by
+  unfold signVal
+  by_cases h : i < 0
+  · simp only [h, decide_true, if_true]; omega
+  · simp only [h, decide_false, Bool.false_eq_true, if_false]; omega
+
+/-- if `den ∣ 10^L`, then `r = ± (|num|·10^L / den) / 10^L` with an exact natural-number division -/
+theorem rat_recon (r : Rat) (L : Nat) (hd : r.den ∣ 10 ^ L) :
+    ((signVal (decide (r.num < 0)) : Int) : Rat)
+      * (((r.num.natAbs * 10 ^ L / r.den : Nat) : Rat) / ((10 ^ L : Nat) : Rat)) = r := by
+  obtain ⟨k, hk⟩ := hd
+  have hden : 0 < r.den := r.den_pos
+  have hk0 : k ≠ 0 := by
+    rintro rfl
+    have : 0 < 10 ^ L := Nat.pow_pos (by norm_num)
+    omega
+  have e1 : r.num.natAbs * 10 ^ L / r.den = r.num.natAbs * k := by
+    rw [hk, ← Nat.mul_assoc, Nat.mul_comm r.num.natAbs, Nat.mul_assoc, Nat.mul_div_cancel_left _ hden]
+  rw [e1, hk]
+  have e2 : ((r.den : Nat) : Rat) ≠ 0 := by exact_mod_cast r.den_ne_zero
+  have e3 : ((k : Nat) : Rat) ≠ 0 := by exact_mod_cast hk0
+  have ha := signVal_natAbs r.num
+  generalize r.num.natAbs = a at ha ⊢
+  generalize signVal (decide (r.num < 0)) = sg at ha ⊢
+  conv_rhs => rw [← Rat.num_div_den r, ← ha]
+  push_cast
+  field_simp
+
+/-! ## `decScale`, `padLeft` -/
+
+theorem decScale_some {fuel den s0 s : Nat} (h : decScale fuel den s0 = some s) : den ∣ 10 ^ s := by
+  induction fuel generalizing s0 with
+  | zero => simp [decScale] at h
+  | succ f ih =>
+    rw [decScale] at h
+    split at h
+    · rename_i hm
+      cases h
+      exact Nat.dvd_of_mod_eq_zero (by simpa using hm)
+    · exact ih h
+
+theorem decScale_isSome {fuel den s0 : Nat} (s : Nat) (h0 : s0 ≤ s) (h1 : s < s0 + fuel) (hd : den ∣ 10 ^ s) :
+    ∃ s', decScale fuel den s0 = some s' := by
+  induction fuel generalizing s0 with
+  | zero => omega
+  | succ f ih =>
+    rw [decScale]
+    split
+    · exact ⟨_, rfl⟩
+    · rename_i hm
+      have : s0 ≠ s := by
+        rintro rfl
+        apply hm
+        simp [Nat.mod_eq_zero_of_dvd hd]
+      exact ih (by omega) (by omega)
+
+theorem valOf_replicate (k : Nat) : valOf (List.replicate k 48) = 0 := by
+  induction k with
+  | zero => rfl
+  | succ k ih =>
+    rw [List.replicate_succ, ← List.singleton_append, valOf_append, ih, valOf_single]
+    simp
+
+theorem padLeft_allDig {n : Nat} {s : Str} (h : AllDig s) : AllDig (padLeft n s) := by
+  refine allDig_append.2 ⟨?_, h⟩
+  intro c hc
+  rw [List.eq_of_mem_replicate hc]
+  decide
+
+theorem padLeft_length {n : Nat} {s : Str} (h : s.length ≤ n) : (padLeft n s).length = n := by
+  simp [padLeft]; omega
+
+theorem padLeft_val (n : Nat) (s : Str) : valOf (padLeft n s) = valOf s := by
+  simp [padLeft, valOf_append, valOf_replicate]
+
+/-! ## shape of the printed texts -/
+
+theorem showInt_shape (i : Int) : showInt i = signTxt (decide (i < 0)) ++ showNat i.natAbs := by
+  unfold showInt signTxt
+  by_cases h : i < 0 <;> simp [h]
+
+theorem showFloat_shape (r : Rat) (h : ∃ s, s ≤ 399 ∧ r.den ∣ 10 ^ s) :
+    ∃ D1 D2, AllDig D1 ∧ AllDig D2 ∧ D1 ≠ [] ∧
+      showFloat r = signTxt (decide (r.num < 0)) ++ D1 ++ 46 :: D2 ∧
+      ((signVal (decide (r.num < 0)) : Int) : Rat)
+        * (((valOf (D1 ++ D2) : Nat) : Rat) / ((10 ^ D2.length : Nat) : Rat)) = r := by
+  obtain ⟨s0, hs0, hd0⟩ := h
+  obtain ⟨s, hs⟩ := decScale_isSome (fuel := 400) (s0 := 0) s0 (by omega) (by omega) hd0
+  have hd := decScale_some hs
+  have hsign : (if r.num < 0 then [45] else []) = signTxt (decide (r.num < 0)) := by
+    unfold signTxt; by_cases h : r.num < 0 <;> simp [h]
+  unfold showFloat
+  rw [hs]
+  simp only [hsign]
+  by_cases h0 : s = 0
+  · subst h0
+    have hden1 : r.den = 1 := by simpa using hd
+    refine ⟨showNat (r.num.natAbs * 10 ^ 0 / r.den), [48], showNat_allDig _, by simp [AllDig, isDigit],
+      showNat_ne _, by simp, ?_⟩
+    have := rat_recon r 1 (by rw [hden1]; exact Nat.one_dvd _)
+    rw [valOf_append, showNat_val, valOf_single]
+    rw [hden1] at this ⊢
+    simpa using this
+  · have hpos : 1 ≤ s := by omega
+    have h10 : 0 < 10 ^ s := Nat.pow_pos (by norm_num)
+    have hfp : r.num.natAbs * 10 ^ s / r.den % 10 ^ s < 10 ^ s := Nat.mod_lt _ h10
+    have hlen := padLeft_length (showNat_length hpos hfp)
+    refine ⟨showNat (r.num.natAbs * 10 ^ s / r.den / 10 ^ s),
+      padLeft s (showNat (r.num.natAbs * 10 ^ s / r.den % 10 ^ s)), showNat_allDig _,
+      padLeft_allDig (showNat_allDig _), showNat_ne _, by simp [h0], ?_⟩
+    rw [valOf_append, showNat_val, padLeft_val, showNat_val, hlen, Nat.div_add_mod']
+    exact rat_recon r s hd
+
+/-! ## the interface theorem -/
+
+/-- Python ints: the printed text reads back as the same int -/
+theorem numOK_int (v : Num) (hf : v.isFloat = false) (hden : v.val.den = 1) : NumOK v := by
+  have hshow : v.show = signTxt (decide (v.val.num < 0)) ++ showNat v.val.num.natAbs := by
+    simp [Num.show, hf, showInt_shape]
+  have hd := showNat_allDig v.val.num.natAbs
+  have hne := showNat_ne v.val.num.natAbs
+  refine ⟨?_, ?_, ?_, ?_, ?_⟩
+  · rw [hshow]
+    unfold convertType
+    rw [parseInt_intTxt _ _ hd hne]
+    simp only
+    rw [showNat_val, signVal_natAbs]
+    obtain ⟨val, isF⟩ := v
+    simp only at hf hden
+    subst hf
+    simp only [Num.ofInt, Rat.coe_int_num_of_den_eq_one hden]
+  · rw [hshow]; simp [hne]
+  · rw [hshow]; exact numChars_intTxt _ _ hd
+  · intro rest hr; rw [hshow]; exact countStr_intTxt _ _ _ hd hne hr
+  · rw [hshow]; unfold isNumber; rw [parseFloat_intTxt _ _ hd hne]
+
+/-- Python floats that are finite decimals with at most 399 fractional digits: the printed text reads back as the
+same float -/
+theorem numOK_float (v : Num) (hf : v.isFloat = true) (h : ∃ s, s ≤ 399 ∧ v.val.den ∣ 10 ^ s) : NumOK v := by
+  obtain ⟨D1, D2, hd1, hd2, hne, hsh, hval⟩ := showFloat_shape v.val h
+  have hshow : v.show = signTxt (decide (v.val.num < 0)) ++ D1 ++ 46 :: D2 := by
+    simp [Num.show, hf, hsh]
+  refine ⟨?_, ?_, ?_, ?_, ?_⟩
+  · rw [hshow]
+    unfold convertType
+    rw [parseInt_floatTxt _ _ _ hd1 hd2 hne, parseFloat_floatTxt _ _ _ hd1 hd2 hne]
+    simp only
+    rw [hval]
+    obtain ⟨val, isF⟩ := v
+    simp only at hf
+    subst hf
+    rfl
+  · rw [hshow]; simp
+  · rw [hshow]; exact numChars_floatTxt _ _ _ hd1 hd2
+  · intro rest hr
+    rw [hshow]
+    have := countStr_floatTxt (decide (v.val.num < 0)) D1 D2 rest hd1 hd2 hne hr
+    simpa using this
+  · rw [hshow]; unfold isNumber; rw [parseFloat_floatTxt _ _ _ hd1 hd2 hne]
+
+/-- **Central theorem.** For a Python int, or a float that is a finite decimal with ≤ 399 fractional digits, the
+printed text is non-empty, consists of digits, `-`, `.` only, is consumed exactly by the count pattern, is accepted by
+`float()`, and `convert_type` reads it back as the same number of the same kind. -/
+theorem numOK_of_wf (v : Num) (h : NumWF v) : NumOK v := by
+  cases hf : v.isFloat
+  · exact numOK_int v hf (h.1 hf)
+  · exact numOK_float v hf (h.2 hf)
+
+/-- non-vacuity: `-1.25` and `-12` satisfy the hypothesis, and print as expected -/
+example : NumWF ⟨-5 / 4, true⟩ ∧ (⟨-5 / 4, true⟩ : Num).show = str% "-1.25" :=
+  ⟨⟨by decide, fun _ => ⟨2, by decide, by decide +kernel⟩⟩, by decide +kernel⟩
+example : NumWF (Num.ofInt (-12)) ∧ (Num.ofInt (-12)).show = str% "-12" :=
+  ⟨⟨fun _ => by decide, by decide⟩, by decide⟩
 
 end Formula
